@@ -672,6 +672,11 @@ C12_keep(g, o, o2) ==
                \A p \in Pids(g.rl.w0[i0]) : KSt(o2, p) = "run" =>
                   \E i \in WIdx(o2) : o2.w[i].ln = g.rl.file[j].ln /\ p \in Pids(o2.w[i])
 
+\* a kill request that names a signal opens its terminations with THAT signal (0, the null signal, included)
+C18_killsig(g, g2, o, o2) ==
+   (g.ctx.on /\ g.ctx.cmd = "kill" /\ g.ctx.signum >= 0) =>
+      \A p \in StopFlips(o, o2) : g2.term[p].sig # 0 => g2.term[p].sig = g.ctx.signum
+
 \* ---------------- C19
 C19_order(g, o, ln) ==
    (ln.k = "spawn" /\ o.slot \in {"arbiter_start_watchers", "arbiter_restart"} /\ g.lastSpawn.w # ""
@@ -722,7 +727,7 @@ Clauses(g, o, ln, o2, g2) ==
     C14_events |-> C14_events(g, ln), C14_killsent |-> C14_killsent(g, ln),
     C15_dir |-> C15_dir(g, o2, ln), C15_views |-> C15_views(o, ln), C15_addrm |-> C15_addrm(g, o, ln, o2),
     C15_reach |-> C15_reach(g, ln),
-    C18_confine |-> C18_confine(g, o, ln), C18_exact |-> C18_exact(g, ln),
+    C18_confine |-> C18_confine(g, o, ln), C18_exact |-> C18_exact(g, ln), C18_killsig |-> C18_killsig(g, g2, o, o2),
     C19_order |-> C19_order(g, o, ln), C19_pace |-> C19_pace(g, o, ln), C19_auto |-> C19_auto(g, o, ln, o2) ]
 
 ---------------------------------------------------------------------------
